@@ -1776,3 +1776,7 @@ mod tests {
         }
     }
 }
+
+#[cfg(any(kani, verif_replay))]
+#[path = "/verif/kani/exchange.rs"]
+pub(crate) mod verif_kani_exchange;
